@@ -76,6 +76,7 @@ FileView(f) == [parts |-> f.parts, strings |-> f.strings]
 (***************************************************************************)
 CONSTANTS MaxGen,          \* number of load/save generations explored
           DropStyledBlank, \* FALSE = the design; TRUE = deviant writer that drops every blank cell (must be refuted)
+          ColFold,         \* "adjacent" | "any" (deviant, must be refuted): see FoldCols
           RowSkip          \* "never" | "default" | "forgets-hidden" (deviant, must be refuted): see RowSkipped
 
 Eff(s) == IF s = "L0" THEN "P" ELSE s          \* effective formatting = what the digest is computed from
@@ -102,7 +103,9 @@ Load(f) ==
                  [cells |-> {LoadCell(f, rc) : rc \in f.sheets[i].cells},
                   (* the reader creates a row entry for every <row> element *)
                   rows  |-> {LoadRow(f, rr) : rr \in f.sheets[i].rows},
-                  cols  |-> {LoadCol(f, cc) : cc \in f.sheets[i].cols}]]]
+                  (* a <col min max> run declares every column min..max *)
+                  cols  |-> UNION {{LoadCol(f, [c |-> k, w |-> cc.w, hid |-> cc.hid, xf |-> cc.xf]) : k \in cc.min..cc.max} :
+                                   cc \in f.sheets[i].cols}]]]
 
 (* ---- save ---------------------------------------------------------------------------------- *)
 CellLess(a, b) == a.r < b.r \/ (a.r = b.r /\ a.c < b.c)
@@ -136,6 +139,18 @@ Flatten(seqs) == FoldLeft(LAMBDA a, b : a \o b, <<>>, seqs)
 TextsOf(q) == [i \in DOMAIN SelectSeq(q, LAMBDA x : x.k = "text") |-> SelectSeq(q, LAMBDA x : x.k = "text")[i].v]
 IndexIn(q, t) == CHOOSE j \in DOMAIN q : q[j] = t
 
+(* runs of declared columns with equal properties: ColFold = "adjacent" (the design: a run only continues with the NEXT
+   column number), "any" (deviant: the adjacency test is missing, the run jumps over undeclared columns) *)
+SameColProps(a, b) == a.w = b.w /\ a.hid = b.hid /\ a.s = b.s
+RECURSIVE FoldCols(_, _)
+FoldCols(q, acc) ==
+  IF q = <<>> THEN acc
+  ELSE LET x == Head(q)
+           n == Len(acc)
+       IN IF n > 0 /\ SameColProps(acc[n].p, x) /\ (ColFold = "any" \/ x.c = acc[n].max + 1)
+          THEN FoldCols(Tail(q), [acc EXCEPT ![n].max = x.c])
+          ELSE FoldCols(Tail(q), Append(acc, [min |-> x.c, max |-> x.c, p |-> x]))
+
 (* which <row> elements of rows WITHOUT cells the writer leaves out: "never" (the code as it is); "default" (a row
    entry all of whose attributes have their default value: legitimate, Norm does not count such an entry as content);
    "forgets-hidden" (the deviant design: the test for "nothing of its own" looks at height and style only) *)
@@ -160,8 +175,9 @@ Save(m, rid) ==
                            x \in {y \in m.sheets[i].rows : hascell(i, y.r) \/ ~RowSkipped(y)}}
                    \cup {[r |-> x.r, ht |-> "0", hid |-> FALSE, xf |-> -1] :
                            x \in {y \in Range(w[i]) : ~\E z \in m.sheets[i].rows : z.r = y.r}}
-      (* every column entry is written *)
-      colset(i) == {[c |-> x.c, w |-> x.w, hid |-> x.hid, xf |-> XfOf(m.x0, xfs2, x.s)] : x \in m.sheets[i].cols}
+      (* every column entry is written; Columns::write_to folds equal declared columns into one <col min..max> run *)
+      colset(i) == {[min |-> g.min, max |-> g.max, w |-> g.p.w, hid |-> g.p.hid, xf |-> XfOf(m.x0, xfs2, g.p.s)] :
+                      g \in Range(FoldCols(SortedCols(m.sheets[i].cols), <<>>))}
   IN [x0 |-> m.x0, xfs |-> xfs2, sst |-> sst, extra |-> m.extra, rid |-> rid,
       sheets |-> [i \in DOMAIN m.sheets |-> [cells |-> {rawc(x) : x \in Range(w[i])}, rows |-> rowset(i), cols |-> colset(i)]]]
 
